@@ -563,4 +563,3 @@ func buildZip(b *base, za *zipAsm, parts []part, eds []edit) []byte {
 	}
 	return assembleZip(ents)
 }
-
